@@ -1,0 +1,1 @@
+//! Hooks for property C30 (empty unless needed).
